@@ -27,8 +27,64 @@ let show_paths ps =
 
 let rec range a b = if a >= b then [] else n_of_int a :: range (a + 1) b
 
+(* rtarget <seed> <target a.b.c | -> <allow_incomplete 0|1> <steps t3,r,t2 | -> <calls>
+   calls: E | U | T:<id>@<a.b.c>/<id>@<a.b>   (the offered tasks with their clocks) *)
+let parse_clock (s : string) : BinNums.coq_N list = Stdlib.List.map n_of_string (String.split_on_char '.' s)
+
+let run_rtarget seed target allow steps calls : string =
+  let target = if target = "-" then None else Some (parse_clock target) in
+  let allow = allow = "1" in
+  let steps = if steps = "-" then [] else
+      Stdlib.List.map (fun w -> if w = "r" then Exec.StRandom else Exec.StTask (nat_of_int (int_of_string (String.sub w 1 (String.length w - 1)))))
+        (String.split_on_char ',' steps) in
+  let ds = ref (Random.ds_initialize (n_of_string seed)) in
+  let started = ref false in
+  let take_vals k =
+    let d = ref !ds and out = ref [] in
+    for _ = 1 to k do let (v, d') = Random.ds_next_u64 !d in out := v :: !out; d := d' done;
+    Stdlib.List.rev !out in
+  let advance k = for _ = 1 to k do let (_, d') = Random.ds_next_u64 !ds in ds := d' done in
+  let st = ref { ReplayTarget.rt_steps = steps; rt_vals = []; rt_skipped = nat_of_int 0 } in
+  let out = ref [] in
+  (try
+     Stdlib.List.iter (fun c ->
+       if c = "E" then begin
+         if !started then out := "eN" :: !out
+         else begin
+           started := true;
+           let (s, d') = Random.ds_reinitialize !ds in
+           ds := d'; out := ("e" ^ string_of_n s) :: !out
+         end
+       end else begin
+         let k = Stdlib.List.length !st.ReplayTarget.rt_steps + 1 in
+         let vals = take_vals k in
+         st := { !st with ReplayTarget.rt_vals = vals };
+         if c = "U" then begin
+           match ReplayTarget.rt_next_u64 !st with
+           | (Some v, st') -> advance 1; st := st'; out := ("u" ^ string_of_n v) :: !out
+           | (None, _) -> out := "P" :: !out; raise Exit
+         end else begin
+           let body = String.sub c 2 (String.length c - 2) in
+           let offered = Stdlib.List.map (fun w ->
+               match String.split_on_char '@' w with
+               | [i; clk] -> (nat_of_int (int_of_string i), parse_clock clk)
+               | _ -> failwith "rtarget: bad task") (String.split_on_char '/' body) in
+           let (a, st') = ReplayTarget.rt_next_task target !st offered in
+           advance (k - Stdlib.List.length st'.ReplayTarget.rt_vals);
+           st := st';
+           match a with
+           | ReplayTarget.RtRun t -> out := ("t" ^ string_of_int (int_of_nat t)) :: !out
+           | ReplayTarget.RtEnded | ReplayTarget.RtNotRunnable _ ->
+             if allow then out := "x" :: !out else (out := "P" :: !out; raise Exit)
+           | ReplayTarget.RtWantedSwitch -> out := "P" :: !out; raise Exit
+         end
+       end) (String.split_on_char ',' calls)
+   with Exit -> ());
+  String.concat "," (Stdlib.List.rev !out)
+
 let run (ws : string list) : string =
   match ws with
+  | ["rtarget"; seed; target; allow; steps; calls] -> run_rtarget seed target allow steps calls
   | ["dfs"; mi; bound; tree] ->
     (match Dfs.dfs_outcome (nat_of_int 200000) (opt_nat mi) (opt_nat bound) (parse_tree tree) with
      | Dfs.Finished ps -> "P " ^ show_paths ps
